@@ -24,7 +24,7 @@ def dot(a, b):
 def run(run):
     rng = run.rng
     run.do_ties()
-    quick = run.tier == "quick"
+    quick = run.quick
     # the frame as the running library reports it
     impl0, model0 = core.both(run, ["consts"], "runtime-constants")
     axes = []
